@@ -576,3 +576,5 @@ def replay(case):
         return None
     return (f'max_body_size={L} max_memfile_size={M} multipart fields {[(a, b, len(d)) for a, b, d in fields]} followed by an epilogue of '
             f'{len(case.get("epilogue", b"  "))} bytes, framing {case["framing"]}({case["arg"]}): {v[1]}')
+
+MANIFEST['text'] += ' Request sequences on one application include app.setup() with other limits; uploads are read in interleaved pieces; a spool file that cannot be created must not turn into an in-memory body.'
